@@ -84,6 +84,11 @@ def run(name, props):
         sh("git checkout -- . && git reset -q", cwd="/repo")
         return 2
     results = {}
+    saved = {}
+    for p in props:  # evidence files must describe runs on the unchanged tree: keep and restore them
+        ep = f"/verif/evidence/{p}.json"
+        if os.path.exists(ep):
+            saved[ep] = open(ep).read()
     try:
         for p in props:
             t0 = time.time()
@@ -93,6 +98,8 @@ def run(name, props):
             print(f"  {name} {p}: exit={rc} keys={keys[:4]}")
     finally:
         sh("git reset -q && git checkout -- .", cwd="/repo")
+        for ep, txt in saved.items():
+            open(ep, "w").write(txt)
     old = {}
     rp = os.path.join(dest, "results.json")
     if os.path.exists(rp):
